@@ -176,6 +176,24 @@ def assigned_attr_paths(fn):
     return out
 
 
+def clone(node):
+    """Copy of an AST (fields and positions only).  `copy.deepcopy` would
+    follow the `_parent` pointers of a loaded tree and copy the module."""
+    if isinstance(node, list):
+        return [clone(x) for x in node]
+    if not isinstance(node, ast.AST):
+        return node
+    new = type(node)()
+    for f in node._fields:
+        if hasattr(node, f):
+            setattr(new, f, clone(getattr(node, f)))
+    for a in ('lineno', 'col_offset', 'end_lineno', 'end_col_offset',
+              '_src_lineno'):
+        if hasattr(node, a):
+            setattr(new, a, getattr(node, a))
+    return new
+
+
 def single_defs(fn):
     """{local name: value expression} for the locals of `fn` that are bound
     exactly once, by a plain `name = <expr>` (no augmented assignment, loop
@@ -233,10 +251,10 @@ def value_of(expr, fn, depth=8):
 
         def visit_Name(self, n):
             if isinstance(n.ctx, ast.Load) and n.id in defs and self.d > 0:
-                e = copy.deepcopy(defs[n.id])
+                e = clone(defs[n.id])
                 return ast.copy_location(V(self.d - 1).visit(e), n)
             return n
-    return V(depth).visit(copy.deepcopy(expr))
+    return V(depth).visit(clone(expr))
 
 
 def all_defs(fn):
@@ -332,9 +350,9 @@ def values_of(expr, fns, depth=6, limit=16):
             class V(ast.NodeTransformer):
                 def visit_Name(self, n):
                     if isinstance(n.ctx, ast.Load) and n.id in m:
-                        return ast.copy_location(copy.deepcopy(m[n.id]), n)
+                        return ast.copy_location(clone(m[n.id]), n)
                     return n
-            outs.extend(expand(V().visit(copy.deepcopy(e)), dep - 1))
+            outs.extend(expand(V().visit(clone(e)), dep - 1))
             if len(outs) >= limit:
                 break
         return outs[:limit]
